@@ -16,6 +16,16 @@ CHECKS = {
         design="5/C05"),
 }
 
+CHECKS["C17"] = dict(
+    text="Lean 4: name cleaning is a well-founded recursion (termination proved with the measure 'characters outside [A-Za-z_]'); "
+         "clean_legal, clean_id_on_legal, clean_idempotent, clean_ne_nil hold for every string. Tied to workbook.name_cleaner by "
+         "extraction of the pattern/flags/replace chain and by exhaustive differential execution on short strings.",
+    note="Trusted: Lean kernel; Python's re engine on this pattern is modelled by `rest` (longest legal prefix + remainder) and "
+         "str.replace by replaceChar/collapse, validated exhaustively over a 12-symbol alphabet up to length 4 (quick) / 5 (thorough) "
+         "and on random Unicode; jsonschema.check_schema observed on heading-row schemas.",
+    technique="Lean 4 proof (well-founded recursion, functional induction); pinned-source tie + exhaustive differential correspondence",
+    design="5/C17")
+
 NOT_APPLICABLE = {
 }
 
